@@ -62,7 +62,10 @@ CLAIMS = {
                 "once, each with normalized(built) distance, and equals brute force over the stored leaves; the traversal never fails "
                 "and its fuel always suffices. The order is OrderedFloat's total order, proved a total preorder on all bit patterns. "
                 "Real crate: every unlimited-budget query of the histories is compared bit-for-bit with the model AND with brute force "
-                "over the implementation's own stored vectors.",
+                "over the implementation's own stored vectors. The answer is also a theorem about the HISTORY alone (C02_history): after any "
+                "history and a successful build the query returns exactly the count best entries of the abstract item map (last write "
+                "wins, deletions gone, metric changes re-encoded) scored on the vectors as written; deleted or overwritten vectors are "
+                "provably never returned.",
         "note": COMMON_NOTE + " `True distance` = the model's bit-exact metric; its relation to real arithmetic is C11.",
         "technique": "Lean 4 theorems (traversal collects the forest; sorted permutation uniqueness) + brute-force oracle on implementation dumps",
     },
